@@ -19,7 +19,7 @@ from harness.dslgen import word, NotGenerated
 PROPERTY = "C02"
 LEVEL = "model_checking"
 N = 33
-ARITH = dict(add=operator.add, sub=operator.sub, mul=operator.mul, truediv=operator.truediv,
+ARITH = dict(mov=lambda a, b: a, add=operator.add, sub=operator.sub, mul=operator.mul, truediv=operator.truediv,
              floordiv=operator.floordiv, mod=operator.mod)
 CMP = dict(cmp_gt=operator.gt, cmp_ge=operator.ge, cmp_lt=operator.lt, cmp_le=operator.le, cmp_ne=operator.ne,
            cmp_eq=operator.eq)
@@ -72,7 +72,7 @@ def build(op, lk, rk, dstfixed, lc, rc, use_kernel=False, scope=None):
         b = operand(self, rk, "lb", 4, rc)
         if op in ARITH:
             e = ARITH[op](a, b)
-            if e is None or isinstance(e, (int, float)):
+            if op != "mov" and (e is None or isinstance(e, (int, float))):
                 raise NotGenerated(f"evaluated to {e!r} while building")
             self.out = e
         else:
@@ -133,7 +133,9 @@ def shapes_of(quick):
     k = 0
     for op in list(ARITH) + list(CMP):
         for lk, rk in itertools.product(KINDS, KINDS):
-            if lk.endswith("const") and rk.endswith("const"):
+            if op == "mov" and rk != "iconst":
+                continue                                  # a plain assignment has one operand
+            if lk.endswith("const") and rk.endswith("const") and op != "mov":
                 continue
             if not (lk.startswith("fix") or rk.startswith("fix") or lk == "fconst" or rk == "fconst"
                     or op == "truediv"):
@@ -144,19 +146,28 @@ def shapes_of(quick):
             for dstfixed in ((True, False) if op in ARITH else (False,)):
                 # quick tier: half of the statements, alternating so that every operator meets both kinds of
                 # destination and every pair of operand kinds
-                if quick and (k + dstfixed) % 2:
+                if quick and (k + dstfixed) % 2 and op != "mov":
                     continue
                 lc = (ICONSTS[k % len(ICONSTS)] if lk == "iconst" else FCONSTS[k % len(FCONSTS)])
                 rc = (ICONSTS[(k * 3 + 1) % len(ICONSTS)] if rk == "iconst" else FCONSTS[(k * 5 + 2) % len(FCONSTS)])
                 if op in ("truediv", "floordiv", "mod") and rk == "iconst" and rc == 0:
                     rc = 3
+                if op == "mov" and lk.endswith("const"):
+                    # every constant into both kinds of destination (a constant's fraction decides: 3.5, 0.57, -0.29)
+                    for c in (FCONSTS + ["1.5", "2.5", "-1.5", "0.99999", "-3.99999"]) if lk == "fconst" else ICONSTS:
+                        shapes.append((op, lk, rk, dstfixed, c, rc))
+                    continue
                 shapes.append((op, lk, rk, dstfixed, lc, rc))
     return shapes
 
 
 def run(ctx):
-    shapes = shapes_of(ctx.quick)
-    nvec = 5 if ctx.quick else 10
+    run_shapes(ctx, shapes_of(ctx.quick), 5 if ctx.quick else 10)
+
+
+def run_shapes(ctx, shapes, nvec, part=""):
+    """part: "" for C02 itself; another check (C03: conditions over fixed-point operands) passes a prefix, and then
+    only the counts are recorded, under that prefix"""
     cases, meta, refused, insts = [], [], [], []
     pyset = pyread = 0
     vr = random.Random(9)
@@ -175,7 +186,9 @@ def run(ctx):
         vs = b.maps[arrfd - 1]["vs"]
         lrec, rrec = operand_rec(lk, inst, "la", lc, hfd), operand_rec(rk, inst, "lb", rc, hfd)
         vecs = [(100000 if lk.startswith("fix") else 3, 29000 if rk.startswith("fix") else 2),
-                (-350000 if lk.startswith("fix") else -7, 100000 if rk.startswith("fix") else 2)]
+                (-350000 if lk.startswith("fix") else -7, 100000 if rk.startswith("fix") else 2),
+                # beyond 32 bits on one side, small on the other (a comparison or sum made in 32 bits shows here)
+                (2 ** 40 + 7 if si % 2 else -(2 ** 33), 5 if lk.startswith("fix") == rk.startswith("fix") else 1)]
         while len(vecs) < nvec + (ctx.rng.random() < 0.2):
             vecs.append((vr.choice(RAWS if lk.startswith("fix") else INTS),
                          vr.choice(RAWS if rk.startswith("fix") else INTS)))
@@ -253,6 +266,10 @@ def run(ctx):
                             f"{m['left']}({m['va'] if m['lconst'] is None else m['lconst']}) {m['op']} "
                             f"{m['right']}({m['vb'] if m['rconst'] is None else m['rconst']}) -> "
                             f"{'fixed' if m['dstfixed'] else 'int'}: {kind} {st_ or ''} observed {got} admissible {expected}")
+    if part:
+        ctx.extra[part + "verdicts"] = counts
+        ctx.extra[part + "statements"] = len(shapes)
+        return
     ctx.exhaustive = False
     ctx.rule = ("6 arithmetic operators into fixed-point and integer destinations and 6 comparisons, over ordered pairs of "
                 "operand kinds (8-byte integer / fixed-point variables and registers, integer constants, decimal "
